@@ -1,25 +1,34 @@
 // Command racepass is the separate free-running pass for Go's race detector:
 // the same kinds of bodies the cooperative explorers run (concurrent use of
-// one storage backend; concurrent renders of one chart) are executed by real
-// goroutines under `-race`. A cooperative scheduler's hand-offs are
-// happens-before edges that blind the detector, hence this separate pass. It
-// samples schedules (the Go runtime picks them): supporting evidence only.
+// one storage backend and concurrent operations on one release; concurrent
+// renders) are executed by real goroutines under `-race`. A cooperative
+// scheduler's hand-offs are happens-before edges that blind the detector,
+// hence this separate pass. The Go runtime picks the schedules, so silence
+// proves nothing (the exhaustive verdict comes from the explorers); a report,
+// however, is always a real data race, and the runner turns it into a
+// violation keyed by the first Helm function of the racing access.
 //
-//	racepass <iterations>      exit 0 = no report, 66 = the detector reported a race
+//	racepass storage|render <iterations>   exit 0 = no report, 66 = the detector reported a race
 package main
 
 import (
 	"fmt"
+	"io"
+	"log/slog"
 	"os"
 	"strconv"
+	"strings"
 	"sync"
 
 	"k8s.io/client-go/kubernetes/fake"
 
+	"helm.sh/helm/v4/pkg/action"
 	chart "helm.sh/helm/v4/pkg/chart/v2"
 	chartutil "helm.sh/helm/v4/pkg/chart/v2/util"
 	"helm.sh/helm/v4/pkg/engine"
+	kubefake "helm.sh/helm/v4/pkg/kube/fake"
 	rspb "helm.sh/helm/v4/pkg/release/v1"
+	releaseutil "helm.sh/helm/v4/pkg/release/util"
 	"helm.sh/helm/v4/pkg/storage"
 	"helm.sh/helm/v4/pkg/storage/driver"
 )
@@ -43,6 +52,8 @@ func storageBody(d driver.Driver) {
 				st.History("a")
 				st.Deployed("a")
 				st.ListReleases()
+				d.Query(map[string]string{"name": "a", "owner": "helm"})
+				st.Update(rel("a", i, "failed"))
 				if g%2 == 0 {
 					st.Delete("a", i)
 				}
@@ -53,51 +64,182 @@ func storageBody(d driver.Driver) {
 	wg.Wait()
 }
 
-func renderBody() {
+func cm(name, body string) string {
+	return "apiVersion: v1\nkind: ConfigMap\nmetadata:\n  name: " + name + "\ndata:\n" + body
+}
+
+func richChart() *chart.Chart {
+	sub := &chart.Chart{Metadata: &chart.Metadata{Name: "s1", Version: "1", APIVersion: "v2"}, Values: map[string]any{"own": "s"},
+		Templates: []*chart.File{{Name: "templates/s.yaml", Data: []byte(cm("s1cm", "  v: {{ .Values | toJson | quote }}\n"))}, {Name: "templates/NOTES.txt", Data: []byte("s1 notes\n")}}}
 	ch := &chart.Chart{Metadata: &chart.Metadata{Name: "r", Version: "1", APIVersion: "v2"},
-		Values: map[string]any{"m": map[string]any{"a": "1", "b": "2"}},
+		Values: map[string]any{"m": map[string]any{"a": "1", "b": "2"}, "t": `{{ include "n" . }}-{{ .Values.m.b }}`, "global": map[string]any{"g": "x"}},
 		Templates: []*chart.File{
 			{Name: "templates/_h.tpl", Data: []byte(`{{- define "n" -}}{{ .Values.m.a }}{{- end -}}`)},
-			{Name: "templates/a.yaml", Data: []byte("a: {{ include \"n\" . }}\nb: {{ .Values.m | toJson }}\nf: {{ .Files.Get \"x.txt\" }}\n")},
+			{Name: "templates/a.yaml", Data: []byte(cm("a", "  a: {{ include \"n\" . }}\n  b: {{ .Values.m | toJson | quote }}\n  f: {{ .Files.Get \"x.txt\" }}\n  t: {{ tpl .Values.t . | quote }}\n") + "---\napiVersion: v1\nkind: Service\nmetadata:\n  name: s\nspec:\n  ports:\n  - port: 80\n---\napiVersion: v1\nkind: Secret\nmetadata:\n  name: x1\n---\napiVersion: apps/v1\nkind: Deployment\nmetadata:\n  name: d1\n---\napiVersion: v1\nkind: ServiceAccount\nmetadata:\n  name: sa\n---\napiVersion: v1\nkind: Namespace\nmetadata:\n  name: n1\n---\napiVersion: networking.k8s.io/v1\nkind: Ingress\nmetadata:\n  name: i1\n---\napiVersion: example.verif/v1\nkind: Widget\nmetadata:\n  name: w1\n")},
+			{Name: "templates/h.yaml", Data: []byte("apiVersion: batch/v1\nkind: Job\nmetadata:\n  name: hj\n  annotations:\n    helm.sh/hook: pre-install,pre-delete\n---\napiVersion: v1\nkind: ConfigMap\nmetadata:\n  name: hc\n  annotations:\n    helm.sh/hook: pre-install\n    helm.sh/hook-weight: \"-1\"\n")},
+			{Name: "templates/NOTES.txt", Data: []byte("notes {{ .Release.Name }}\n")},
 		},
 		Files: []*chart.File{{Name: "x.txt", Data: []byte("x")}}}
+	ch.AddDependency(sub)
+	return ch
+}
+
+func mismatch(what string) {
+	fmt.Println("RENDER-MISMATCH " + what)
+	os.Exit(67)
+}
+
+// renderBody: 8 concurrent engine renders of one chart object, 6 concurrent
+// client-only dry-run installs (render, hook/manifest sorting in install
+// order, notes) and, at the same time, the uninstall-order sort of the same
+// rendered files; every goroutine's output must equal the sequential one.
+func renderBody() {
+	ch := richChart()
 	vals, err := chartutil.ToRenderValues(ch, map[string]any{}, chartutil.ReleaseOptions{Name: "r", Namespace: "default", IsInstall: true}, chartutil.DefaultCapabilities)
 	if err != nil {
 		panic(err)
 	}
+	install := func() string {
+		inst := action.NewInstall(&action.Configuration{})
+		inst.ClientOnly, inst.DryRun = true, true
+		inst.ReleaseName, inst.Namespace, inst.SubNotes = "r", "default", true
+		r, err := inst.Run(richChart(), map[string]any{})
+		if err != nil {
+			return "error: " + err.Error()
+		}
+		s := r.Manifest + "#" + r.Info.Notes
+		for _, h := range r.Hooks {
+			s += "#" + h.Path + h.Name
+		}
+		return s
+	}
+	unsort := func(files map[string]string) string {
+		for k := range files {
+			if strings.HasSuffix(k, "NOTES.txt") {
+				delete(files, k)
+			}
+		}
+		hs, ms, err := releaseutil.SortManifests(files, nil, releaseutil.UninstallOrder)
+		if err != nil {
+			panic("racepass: uninstall-order sort failed: " + err.Error())
+		}
+		s := ""
+		for _, m := range ms {
+			s += m.Name + "|" + m.Head.Kind + ";"
+		}
+		for _, h := range hs {
+			s += h.Name + ";"
+		}
+		return s
+	}
+	seqFiles, err := engine.Render(ch, vals)
+	if err != nil {
+		panic(err)
+	}
+	wantRender, wantInstall, wantUnsort := fmt.Sprint(seqFiles), install(), unsort(copyMap(seqFiles))
 	var wg sync.WaitGroup
-	outs := make([]string, 8)
 	for g := 0; g < 8; g++ {
 		wg.Add(1)
-		go func(g int) {
+		go func() {
 			defer wg.Done()
 			m, err := engine.Render(ch, vals)
-			if err != nil {
-				outs[g] = err.Error()
-				return
+			if err != nil || fmt.Sprint(m) != wantRender {
+				mismatch("engine.Render")
 			}
-			outs[g] = m["r/templates/a.yaml"]
-		}(g)
+		}()
+	}
+	for g := 0; g < 6; g++ {
+		wg.Add(2)
+		go func() {
+			defer wg.Done()
+			if install() != wantInstall {
+				mismatch("install --dry-run")
+			}
+		}()
+		go func() {
+			defer wg.Done()
+			if unsort(copyMap(seqFiles)) != wantUnsort {
+				mismatch("SortManifests(UninstallOrder)")
+			}
+		}()
 	}
 	wg.Wait()
-	for _, o := range outs[1:] {
-		if o != outs[0] {
-			fmt.Println("RENDER-MISMATCH")
-			os.Exit(67)
-		}
+}
+
+func copyMap(m map[string]string) map[string]string {
+	o := map[string]string{}
+	for k, v := range m {
+		o[k] = v
 	}
+	return o
+}
+
+// actionBody: three installs and two upgrades of one release name, each with
+// its own Configuration and Storage over ONE shared driver, free-running.
+func actionBody(d driver.Driver) {
+	simple := func() *chart.Chart {
+		return &chart.Chart{Metadata: &chart.Metadata{Name: "c", Version: "1", APIVersion: "v2"}, Values: map[string]any{},
+			Templates: []*chart.File{{Name: "templates/a.yaml", Data: []byte(cm("a", "  k: v\n"))}}}
+	}
+	newCfg := func() *action.Configuration {
+		return &action.Configuration{KubeClient: &kubefake.PrintingKubeClient{Out: io.Discard}, Releases: storage.Init(d), Capabilities: chartutil.DefaultCapabilities}
+	}
+	first := action.NewInstall(newCfg())
+	first.ReleaseName, first.Namespace = "r", "default"
+	first.Run(simple(), map[string]any{})
+	var wg sync.WaitGroup
+	for g := 0; g < 2; g++ {
+		wg.Add(1)
+		go func() {
+			defer wg.Done()
+			inst := action.NewInstall(newCfg())
+			inst.ReleaseName, inst.Namespace = "r", "default"
+			inst.Run(simple(), map[string]any{})
+		}()
+	}
+	for g := 0; g < 3; g++ {
+		wg.Add(1)
+		go func() {
+			defer wg.Done()
+			up := action.NewUpgrade(newCfg())
+			up.Namespace = "default"
+			up.Run("r", simple(), map[string]any{})
+		}()
+	}
+	wg.Wait()
+}
+
+// body announces which body the following race reports (same stream) belong to.
+func body(name string, fn func()) {
+	fmt.Fprintf(os.Stderr, "RACEPASS-BODY %s\n", name)
+	fn()
 }
 
 func main() {
-	n := 50
+	mode, n := "all", 50
 	if len(os.Args) > 1 {
-		n, _ = strconv.Atoi(os.Args[1])
+		mode = os.Args[1]
 	}
+	if len(os.Args) > 2 {
+		n, _ = strconv.Atoi(os.Args[2])
+	}
+	slog.SetDefault(slog.New(slog.NewTextHandler(io.Discard, nil)))
 	for i := 0; i < n; i++ {
-		storageBody(driver.NewMemory())
-		storageBody(driver.NewSecrets(fake.NewSimpleClientset().CoreV1().Secrets("default")))
-		storageBody(driver.NewConfigMaps(fake.NewSimpleClientset().CoreV1().ConfigMaps("default")))
-		renderBody()
+		if mode == "storage" || mode == "all" {
+			body("storage-memory", func() { storageBody(driver.NewMemory()) })
+			body("storage-secrets", func() { storageBody(driver.NewSecrets(fake.NewSimpleClientset().CoreV1().Secrets("default"))) })
+			body("storage-configmaps", func() { storageBody(driver.NewConfigMaps(fake.NewSimpleClientset().CoreV1().ConfigMaps("default"))) })
+			body("operations-secrets", func() { actionBody(driver.NewSecrets(fake.NewSimpleClientset().CoreV1().Secrets("default"))) })
+			body("operations-memory", func() {
+				mem := driver.NewMemory()
+				mem.SetNamespace("default")
+				actionBody(mem)
+			})
+		}
+		if mode == "render" || mode == "all" {
+			body("render", renderBody)
+		}
 	}
-	fmt.Printf("racepass: %d iterations x (3 storage backends x 6 goroutines, 8 concurrent renders) completed\n", n)
+	fmt.Fprintf(os.Stderr, "RACEPASS-BODY none\n")
+	fmt.Printf("racepass %s: %d iterations completed (storage-*: 3 backends x 6 goroutines; operations-*: 2 installs + 3 upgrades of one release over one shared driver; render: 8 engine renders + 6 dry-run installs + 6 uninstall-order sorts, concurrently)\n", mode, n)
 }
